@@ -1,4 +1,5 @@
 #![recursion_limit = "256"]
+mod atomics;
 mod check;
 mod exec;
 mod forkrun;
@@ -394,6 +395,8 @@ impl Agg {
             ("log_yields", c.log_yields),
             ("alloc_yields", c.alloc_yields),
             ("block_yields", c.block_yields),
+            ("atomic_yields", c.atomic_yields),
+            ("atomic_ops", c.atomic_ops),
         ] {
             Self::bump(&mut self.counters, k, v);
         }
